@@ -363,6 +363,29 @@ func ruleC03Effects(c *Ctx) {
 	} else {
 		ec := c.effectCounter(isDepthMax, false)
 		r := ec.perIteration(parentLoop)
+		if r.Min == 0 && r.Max == 1 {
+			// a hand-written maximum stores only when the parent is deeper:
+			// what happens once per parent is the comparison
+			guards := map[ssa.Instruction]bool{}
+			all := true
+			for _, ed := range e.Edges {
+				if isDepthMax(ed) && ed.Site != nil && parentLoop.Blocks[ed.Site.Block()] {
+					if ed.Guard == nil {
+						all = false
+					} else {
+						guards[ed.Guard] = true
+					}
+				}
+			}
+			if all && len(guards) > 0 {
+				r = c.newEventCounter(func(in ssa.Instruction) int {
+					if guards[in] {
+						return 1
+					}
+					return 0
+				}, false).perIteration(parentLoop)
+			}
+		}
 		if r.Min == 1 && r.Max == 1 {
 			c.hold("C03.effects", "per-parent-max", posOf(parentLoop.Head.Instrs[0]), "exactly one depth MAX per parent")
 		} else {
